@@ -242,4 +242,6 @@ WITNESSES = [
      "new": "\tif (reason)\n\t\t*reason = (struct pfx_record *)((struct node_data *)node->data)->ary;\n\tpthread_rwlock_unlock(&pfx_table->lock);\n\t*result = BGP_PFXV_STATE_VALID;\n"},
     {"id": "C16.w10-remove_entry-double-unlock", "rule": "C16.R2", "file": HT,
      "old": "\t\trtval = SPKI_RECORD_NOT_FOUND;\n", "new": "\t\trtval = SPKI_RECORD_NOT_FOUND;\n\t\tpthread_rwlock_unlock(&spki_table->lock);\n"},
+    {"id": "C16.w-copy-gives-up-the-source-lock-per-entry", "rule": "C16.R3", "file": "rtrlib/spki/hashtable/ht-spkitable.c",
+     "old": "\t\t\tif (spki_table_add_entry(dst, &record) != SPKI_SUCCESS) {", "new": "\t\t\tpthread_rwlock_unlock(&src->lock);\n\t\t\tpthread_rwlock_rdlock(&src->lock);\n\t\t\tif (spki_table_add_entry(dst, &record) != SPKI_SUCCESS) {"},
 ]
